@@ -92,6 +92,17 @@ func past(m map[string]any) {
 	}
 }
 
+// recentlyPast: expired half a minute ago (inside any clock offset a verifier may have been configured with).
+func recentlyPast(m map[string]any) {
+	now := time.Now()
+	m["exp"] = now.Add(-30 * time.Second).Unix()
+	for _, k := range []string{"iat", "nbf", "auth_time"} {
+		if _, ok := m[k]; ok {
+			m[k] = now.Add(-20 * time.Minute).Unix()
+		}
+	}
+}
+
 func flipB64(s string, pos, bit int) (string, bool) {
 	i := strings.IndexByte(b64url, s[pos])
 	if i < 0 {
@@ -184,6 +195,7 @@ func (f *forgeCase) operators() []forged {
 	add("jwt-foreign-issuer", resign(jwt, opSig, opSig.Alg, kid, func(m map[string]any) { m["iss"] = f.w.Issuer + "/" }), "provider's own key, issuer with trailing slash", tAccess, "derived")
 	add("jwt-foreign-issuer", resign(jwt, opSig, opSig.Alg, kid, func(m map[string]any) { delete(m, "iss") }), "provider's own key, no issuer", tAccess, "derived")
 	add("jwt-expired", resign(jwt, opSig, opSig.Alg, kid, past), "provider's own key, exp one hour ago (the stored token is live)", tAccess, "derived")
+	add("jwt-expired-recently", resign(jwt, opSig, opSig.Alg, kid, recentlyPast), "provider's own key, exp 30 s ago (the stored token is live)", tAccess, "derived")
 	add("jwt-expired", resign(jwt, opSig, opSig.Alg, kid, func(m map[string]any) { delete(m, "exp") }), "provider's own key, no exp", tAccess, "derived")
 	add("jwt-expired", resign(jwt, evil, opSig.Alg, kid, past), "foreign key, exp one hour ago", tAccess, "derived")
 	add("jwt-jti-swap-foreign-key", resign(jwt, evil, opSig.Alg, kid, func(m map[string]any) { m["jti"], m["sub"] = f.v1ID, "user-1" }), "jti and sub of the live opaque token", tAccess, "derived")
@@ -236,6 +248,7 @@ func (f *forgeCase) operators() []forged {
 	// an expired ID token signed by the provider's key is dead as a token-exchange subject / actor; as id_token_hint an
 	// expired genuine hint is accepted by design (C18), hence class "expired-genuine": not sent to end_session
 	add("idtoken-expired", resign(idt, opSig, opSig.Alg, kid, past), "provider's own key, exp one hour ago", tID, "expired-genuine")
+	add("idtoken-expired-recently", resign(idt, opSig, opSig.Alg, kid, recentlyPast), "provider's own key, exp 30 s ago", tID, "expired-genuine")
 	add("idtoken-alg-none", keys.Raw(keys.HeaderJSON("none", kid, nil), keys.PayloadOf(idt), nil), "", tID, "derived")
 	for _, enc := range keys.PublicEncodings(opSig)[:2] {
 		add("idtoken-hmac-public-key", keys.HMACSign("HS256", kid, enc, keys.PayloadOf(idt)), "", tID, "derived")
@@ -284,7 +297,11 @@ func runForged(run *ev.Run, j int) {
 	r := run.CaseRand(9, j)
 	router := j % 2
 	caseIdx := int64(forgedBase + j)
-	f := &forgeCase{env: newEnv(run, router, r.IntN(2) == 0), r: r, caseIdx: caseIdx}
+	// half of the worlds run with verifiers that were given a clock offset (an application-defined verifier option): an
+	// offset makes expiry stricter, never more lenient
+	offset := pick(r, time.Duration(0), 0, time.Minute, 5*time.Minute)
+	f := &forgeCase{env: newEnvFull(run, router, r.IntN(2) == 0, nil, offset), r: r, caseIdx: caseIdx}
+	run.Count("forged_world_verifier_offset", offset.String())
 	// move the storage's id counter so that token ids (and with them ciphertext length and base64 tail) vary
 	bump := pick(r, 0, 0, 3, 9, 40, 97, 400)
 	for i := 0; i < bump; i++ {
